@@ -33,6 +33,7 @@ import (
 	"github.com/NethermindEth/juno/db/memory"
 	_ "github.com/NethermindEth/juno/encoder/registry"
 	"github.com/NethermindEth/juno/feed"
+	"github.com/NethermindEth/juno/migration/historyprunner"
 	"github.com/NethermindEth/juno/pruner"
 	"github.com/NethermindEth/juno/utils/log"
 	"pgregory.net/rapid"
@@ -57,6 +58,14 @@ const (
 	// the min-age sample (latestSampledHeight) is not lowered when a reorg replaces blocks below it with
 	// younger ones: until the next tick the pruner may delete replacement blocks younger than min-age
 	kfMinAgeStaleAfterReorg = "c16-min-age-sample-stale-after-reorg"
+	// the history-prune migration (first start with --prune-mode on an existing database) fails, after it has
+	// already wiped every hash-keyed lookup, ...
+	// ... on the trie2 backend (it copies legacy history entries that do not exist)
+	kfMigNewState = "c16-history-prune-migration-fails-on-new-state-backend"
+	// ... when a kept block's diff writes zero to a never-written slot (the legacy state logs no history for it)
+	kfMigZeroAbsent = "c16-history-prune-migration-fails-on-zero-write-to-absent-slot"
+	// ... when the computed floor is block 0 (pivot == retained, or the whole chain is younger than min-age)
+	kfMigFloorZero = "c16-history-prune-migration-fails-when-floor-is-zero"
 )
 
 func known(key string) bool { return stats.Known(key) || strings.Contains(os.Getenv("C16_ASSUME_KNOWN"), key) }
@@ -168,6 +177,17 @@ func (m *machine) startSession(d *fdb, cf cfg) (*session, error) {
 		m.all = append(m.all, s)
 	}
 	return s, err
+}
+
+// startPlain is a process start WITHOUT --prune-mode: same Blockchain wiring minus the pruning-aware running
+// filter initializer, no pruner service.
+func (m *machine) startPlain(d *fdb, cf cfg) (*session, error) {
+	s := &session{db: d, floor: &pruner.RetentionFloor{}, exited: true, cancel: func() {}}
+	s.n = node.New(cf.newState, d, m.u.Net, blockchain.WithRetentionFloor(s.floor))
+	if err := s.floor.Seed(d); err != nil {
+		return nil, fmt.Errorf("RetentionFloor.Seed: %w", err)
+	}
+	return s, nil
 }
 
 func startSession(d *fdb, cf cfg, u *gen.Universe) (*session, error) {
@@ -407,6 +427,8 @@ type machine struct {
 	freshTips bool
 	// failure recorded by the mid-prune reader hook
 	hookKey, hookFail string
+	// pruning: --prune-mode is on (false while the node of a "late enable" case still runs without it)
+	pruning, forceEnable bool
 	// noParentMapping: the copy under inspection is the result of a cancelled (partial) prune and the known
 	// finding kfCancelParentMapping is listed: the hash->number mapping of floor-1 is not required
 	noParentMapping bool
@@ -484,7 +506,20 @@ func (m *machine) afterEvent(s *session, what string, fBefore uint64, base *uint
 	if errs := s.takeErrs(); len(errs) > 0 {
 		m.violation("prune-error", "pruner handler failed on %s: %v", what, errs)
 	}
-	fa, err := floorOf(s.db, *base)
+	fa := m.checkFloor(s.db, what, fBefore, base)
+	// the in-memory floor must still admit state one block below the oldest retained block
+	if fa > 0 && int(fa) <= m.ch.Height() && !s.wasCancelled() {
+		if err := pruner.RequireStateRetainedByBlockNumber(s.db, s.floor, fa-1); err != nil && uint64(m.ch.Height()) > fa-1 {
+			m.violation("state-floor-too-high", "after %s oldest retained block is %d but state at %d is refused: %v", what, fa, fa-1, err)
+		}
+	}
+	return fa
+}
+
+// checkFloor applies oracle (1) to whatever moved the floor of database d from fBefore: bound by the high-water
+// mark of min(L1 head, local head) - retained, and no block younger than min-age (now) among the newly pruned.
+func (m *machine) checkFloor(d db.KeyValueReader, what string, fBefore uint64, base *uint64) uint64 {
+	fa, err := floorOf(d, *base)
 	if err != nil {
 		m.violation("oldest-retained-error", "OldestRetainedBlock after %s: %v", what, err)
 	}
@@ -503,12 +538,6 @@ func (m *machine) afterEvent(s *session, what string, fBefore uint64, base *uint
 			}
 		}
 	}
-	// the in-memory floor must still admit state one block below the oldest retained block
-	if fa > 0 && int(fa) <= m.ch.Height() && !s.wasCancelled() {
-		if err := pruner.RequireStateRetainedByBlockNumber(s.db, s.floor, fa-1); err != nil && uint64(m.ch.Height()) > fa-1 {
-			m.violation("state-floor-too-high", "after %s oldest retained block is %d but state at %d is refused: %v", what, fa, fa-1, err)
-		}
-	}
 	return fa
 }
 
@@ -521,6 +550,9 @@ func l1num(h *core.L1Head) string {
 
 func (m *machine) sendL2(s *session, b *core.Block, base *uint64) (before, after uint64) {
 	before, _ = floorOf(s.db, *base)
+	if s.l2 == nil { // pruning not enabled (yet)
+		return before, before
+	}
 	s.l2.Send(b)
 	synctest.Wait()
 	after = m.afterEvent(s, fmt.Sprintf("L2 head %d", b.Number), before, base)
@@ -529,6 +561,9 @@ func (m *machine) sendL2(s *session, b *core.Block, base *uint64) (before, after
 
 func (m *machine) sendL1(s *session, h *core.L1Head, base *uint64) (before, after uint64) {
 	before, _ = floorOf(s.db, *base)
+	if s.l1 == nil {
+		return before, before
+	}
 	s.l1.Send(h)
 	synctest.Wait()
 	after = m.afterEvent(s, fmt.Sprintf("L1 head %d", h.BlockNumber), before, base)
@@ -558,6 +593,9 @@ func (m *machine) used(what string) {
 // ---- actions
 
 func (m *machine) addBlock(b *gen.Block) {
+	if b.Tags["excluded-zero-to-absent"] {
+		m.c.Excluded(kfMigZeroAbsent)
+	}
 	m.ids.AddBlock(b)
 	for _, p := range diffPairs(b) {
 		if !m.writtenSet[p] {
@@ -736,6 +774,43 @@ func (m *machine) restart() {
 	if m.s.runErr != nil {
 		m.violation("pruner-run-error", "pruner.Run returned %v on shutdown", m.s.runErr)
 	}
+	if !m.pruning {
+		if m.l1 != nil && m.migrationFloorWouldBeZero() && known(kfMigFloorZero) {
+			// known finding: do not enable pruning at a moment where the migration's floor is block 0
+			m.c.Excluded(kfMigFloorZero)
+			if m.forceEnable {
+				// make the floor positive: every existing block older than min-age, pivot above retained
+				m.logf("  (blocks age by %s; more blocks until min(L1 head, head) > retained)", m.cf.minAge+time.Second)
+				m.sleep(m.cf.minAge + time.Second)
+				s, err := m.startPlain(m.s.db, m.cf)
+				if err != nil {
+					m.violation("restart-failed", "restart (pruning off) failed: %v", err)
+				}
+				m.s = s
+				for guard := 0; m.migrationFloorWouldBeZero() && guard < 8; guard++ {
+					m.store(false)
+					m.setL1(false)
+				}
+				if m.migrationFloorWouldBeZero() {
+					m.pruning = true // give up on the migration in this case: plain start with the pruner
+				} else {
+					m.enablePruning()
+				}
+				goto start
+			}
+		}
+		if m.l1 == nil || m.migrationFloorWouldBeZero() && known(kfMigFloorZero) || !(m.forceEnable || rapid.Bool().Draw(m.rt, "enablePruning")) {
+			s, err := m.startPlain(m.s.db, m.cf)
+			if err != nil {
+				m.violation("restart-failed", "restart (pruning off) failed: %v", err)
+			}
+			m.s = s
+			m.c.Label("restart")
+			return
+		}
+		m.enablePruning()
+	}
+start:
 	s, err := m.startSession(m.s.db, m.cf)
 	if err != nil {
 		m.violation("restart-failed", "restart on the pruned database failed: %v", err)
@@ -743,6 +818,51 @@ func (m *machine) restart() {
 	m.s = s
 	m.c.Label("restart")
 	m.used("restart")
+}
+
+// migrationFloorWouldBeZero mirrors historyprunner's floor computation only to steer the generator away from
+// the known floor-zero class: pivot >= retained and min(pivot - retained, first block within min-age) == 0.
+func (m *machine) migrationFloorWouldBeZero() bool {
+	if m.l1 == nil || m.ch.Height() == 0 {
+		return false
+	}
+	pivot := min(m.l1.BlockNumber, m.head())
+	if pivot < m.cf.retained {
+		return false
+	}
+	if pivot == m.cf.retained {
+		return true
+	}
+	if m.cf.minAge == 0 {
+		return false
+	}
+	cutoff := uint64(time.Now().Add(-m.cf.minAge).Unix())
+	return m.ch.Blocks[0].B.Timestamp >= cutoff
+}
+
+// enablePruning: the operator restarts the node with --prune-mode for the first time. node.Run runs the
+// history-pruning migration (same retained / min-age settings) before the floor is seeded and the pruner starts.
+func (m *machine) enablePruning() {
+	m.pruning = true
+	m.c.Label("pruning-enabled-by-migration")
+	m.c.Fp("enable")
+	before := m.F()
+	m.noteBound(m.l1.BlockNumber, true)
+	m.logf("pruning enabled: history-prune migration (L1 head %d, local head %d)", m.l1.BlockNumber, m.ch.Height()-1)
+	mig := historyprunner.New(m.cf.retained, m.cf.minAge)
+	if err := mig.Before(nil); err != nil {
+		m.violation("migration-failed", "historyprunner.Before(nil): %v", err)
+	}
+	st, err := mig.Migrate(context.Background(), m.s.db, m.u.Net, log.NewNopZapLogger())
+	if err != nil {
+		m.violation("migration-failed", "history-prune migration (retained %d, min-age %s, L1 head %d, local head %d) failed: %v",
+			m.cf.retained, m.cf.minAge, m.l1.BlockNumber, m.ch.Height()-1, err)
+	}
+	if st != nil {
+		m.violation("migration-incomplete", "history-prune migration returned intermediate state %x without being cancelled", st)
+	}
+	after := m.checkFloor(m.s.db, "the history-prune migration", before, &m.lastF)
+	m.notePruned(before, after, "migration")
 }
 
 // revert undoes the head block on both nodes.
@@ -1524,9 +1644,31 @@ func runCase(t *testing.T, rt *rapid.T, c *stats.Case) {
 	// virtual clock: the chain's first timestamp plus an offset (0 = the node follows the tip: blocks arrive
 	// fresh; hours = the first blocks arrive old and the node catches up with the clock; years = deep catch-up)
 	offset := rapid.SampledFrom([]time.Duration{0, 0, 45 * time.Minute, 3 * time.Hour, 20 * time.Hour, 3 * 365 * 24 * time.Hour}).Draw(rt, "clockOffset")
+	// a fifth of the cases start WITHOUT --prune-mode and enable it at a later restart (history-prune migration)
+	late := rapid.IntRange(0, 4).Draw(rt, "lateEnable") == 0
+	exclNewState := false
+	if late && cf.newState && known(kfMigNewState) {
+		cf.newState, exclNewState = false, true
+	}
 	m := newMachine(t, rt, c, cf, offset)
 	defer m.stopAll()
-	s, err := m.startSession(newFdb(memory.New()), cf)
+	if exclNewState {
+		c.Excluded(kfMigNewState)
+	}
+	if late && known(kfMigZeroAbsent) {
+		m.ch.Opt.NoZeroToAbsent = true
+	}
+	var s *session
+	var err error
+	if late {
+		c.Label("starts-without-pruning")
+		c.Fp("late")
+		m.logf("node starts without --prune-mode")
+		s, err = m.startPlain(newFdb(memory.New()), cf)
+	} else {
+		m.pruning = true
+		s, err = m.startSession(newFdb(memory.New()), cf)
+	}
 	if err != nil {
 		m.violation("restart-failed", "start on an empty database failed: %v", err)
 	}
@@ -1570,6 +1712,20 @@ func runCase(t *testing.T, rt *rapid.T, c *stats.Case) {
 			m.query()
 		case "reorg":
 			if !m.reorg() {
+				m.store(false)
+			}
+		}
+	}
+	if !m.pruning { // late-enable case that never restarted: enable now
+		if m.l1 == nil {
+			m.setL1(false)
+		}
+		m.forceEnable = true
+		m.restart()
+		for i := rapid.IntRange(0, 6).Draw(rt, "afterEnable"); i > 0; i-- {
+			if rapid.Bool().Draw(rt, "afterEnableL1") {
+				m.setL1(false)
+			} else {
 				m.store(false)
 			}
 		}
@@ -1618,6 +1774,7 @@ func runMinAgeReorg(t *testing.T, rt *rapid.T, c *stats.Case) {
 	offset := rapid.SampledFrom([]time.Duration{90 * time.Minute, 3 * time.Hour, 20 * time.Hour}).Draw(rt, "clockOffset")
 	m := newMachine(t, rt, c, cf, offset)
 	defer m.stopAll()
+	m.pruning = true
 	s, err := m.startSession(newFdb(memory.New()), cf)
 	if err != nil {
 		m.violation("restart-failed", "start on an empty database failed: %v", err)
